@@ -319,6 +319,14 @@ func buildField(ww *conversionVisitor, node sourcewalk.FieldNode) (*descriptorpb
 		proto.SetExtension(desc.Options, validate.E_Field, rules)
 
 		if st.Enum.ListRules != nil {
+			if filtering := st.Enum.ListRules.Filtering; filtering != nil {
+				// the client (buildListRequest) looks every default filter up in the enum
+				for _, val := range filtering.DefaultFilters {
+					if !enumRef.hasValue(val) {
+						return nil, fmt.Errorf("listRules.filtering.defaultFilters: enum value %q not found", val)
+					}
+				}
+			}
 			ww.file.ensureImport(j5ListAnnotationsImport)
 			proto.SetExtension(desc.Options, list_j5pb.E_Field, &list_j5pb.FieldConstraint{
 				Type: &list_j5pb.FieldConstraint_Enum{
